@@ -79,6 +79,12 @@ HostDenote(h) ==
 
 SameHost(a, b) == HostDenote(a) = HostDenote(b)
 
+\* The statement quantifies over names, IPv4 and IPv6 literals (incl. compressed
+\* forms); a zone identifier (fe80::1%eth0) is not mentioned: such hosts are
+\* out of scope -- a broken clause is reported as "unspecified:<label>".
+HostInScope(h) == ~Has(h, PERCENT)
+Scoped(h, v) == IF v = "ok" \/ HostInScope(h) THEN v ELSE "unspecified:zone-id"
+
 ----------------------------------------------------------------------------
 (* ---------------- H: host:port strings split and join losslessly -------- *)
 (* got = [t |-> "err"] | [t |-> "ok", host |-> codes, port |-> int or NoPort]
